@@ -158,6 +158,10 @@ def menu(tname, rich=True):
             items.append(Item(f"al_{f}: {f}", {"alias"}))
             for d, tag in DIRECTIVES:
                 items.append(Item(f"{f} {d}", {"field_directive", f"field_{tag}"}, var="$v" in d))
+            # a conditional directive that is not the first (or not the only) directive on the field
+            items.append(Item(f'{f} @tag(name: "x") @include(if: $v)', {"field_directive", "two_directives", "conditional_second"}, var=True))
+            items.append(Item(f'{f} @skip(if: $v) @tag(name: "x")', {"field_directive", "two_directives", "conditional_first"}, var=True))
+            items.append(Item(f'{f} @tag(name: "x") @tag(name: "y") @skip(if: $v)', {"field_directive", "two_directives", "conditional_third"}, var=True))
     if len(leaves) > 1:
         f = leaves[1]
         items.append(Item(f"{f} @include(if: $v)", {"field_directive", "field_include_var"}, var=True))
@@ -166,6 +170,7 @@ def menu(tname, rich=True):
         for j, (s, tags, frags) in enumerate(SUB[ft][:3] if rich else SUB[ft][:1]):
             items.append(Item(f"{f} {{ {s} }}", {"composite_field", *tags}, frags))
         items.append(Item(f"{f} @include(if: $v) {{ id }}", {"composite_field", "field_directive", "composite_include_var"}, var=True))
+        items.append(Item(f'{f} @tag(name: "x") @skip(if: $v) {{ id }}', {"composite_field", "field_directive", "two_directives", "conditional_second"}, var=True))
         items.append(Item(f"al1_{f}: {f} {{ id }}", {"composite_field", "alias", "aliased_composite"}))
         items.append(Item(f"al2_{f}: {f} {{ name kind }}", {"composite_field", "alias", "aliased_composite", "enum"}))
     items.append(Item("__typename", {"explicit_typename"}))
@@ -370,6 +375,35 @@ def k2_matrix(level=2):
                     add(f"M{k}", at(f"... on {F} {{ ...FB }}"), [f"fragment FB on {G} {{ {K2_OWN[G]} }}"], t2 | {"shape:inline>spread", f"rel:inline>spread:{r2}"})
                 k += 1
                 add(f"M{k}", at("...FA"), [f"fragment FA on {F} {{ {K2_OWN[F]} ... on {G} {{ {K2_OWN[G]} }} }}"], t2 | {"shape:spread>inline", f"rel:spread>inline:{r2}"})
+                if F == P:
+                    # the inline fragment sits two named spreads below the position
+                    k += 1
+                    add(f"M{k}", at("...FA"), [f"fragment FA on {F} {{ {K2_OWN[F]} ...FMid }}", f"fragment FMid on {F} {{ ... on {G} {{ {K2_OWN[G]} }} }}"],
+                        t2 | {"shape:spread>spread>inline", f"rel:spread>spread>inline:{r2}"})
+    # ONE operation visiting the same abstract type at two positions with different selections, in both orders (state kept per type
+    # between positions of one operation), and one fragment spread at two positions of one operation where it plays two roles
+    two_pos = {"Actor": ('actor(id: "1") {sel}', 'lead: team(id: "t") {{ lead {sel} }}'), "Entity": ('entity(id: "1") {sel}', 'e2: entity(id: "2") {sel}'),
+               "Thing": ("things {{ items {sel} }}", "t2: things(first: 1) {{ items {sel} }}")}
+    sels = {"Actor": ["{ ... on Person { status } }", "{ displayName }", "{ ... on Robot { model } displayName }"],
+            "Entity": ["{ ... on Team { title } }", "{ id }", "{ ... on Actor { displayName } id }", "{ ... on Person { status } ... on Robot { model } }"],
+            "Thing": ["{ ... on Team { title } }", "{ __typename }", "{ ... on Person { status } ... on Robot { model } }"]}
+    for P, (t1, t2) in two_pos.items():
+        for a in sels[P]:
+            for b in sels[P]:
+                if a == b:
+                    continue
+                k += 1
+                add(f"M{k}", "{ " + t1.format(sel=a) + " " + t2.format(sel=b) + " }", [], {f"pos:{P}", "shape:same_type_two_positions", f"twopos:{P}:{sels[P].index(a)}>{sels[P].index(b)}"})
+    for F in ("Entity", "Actor"):
+        poss = [(P, field, wrap) for P, field, wrap in K2_POS if do_types_overlap(sch, T[P], T[F]) and P in ("Person", "Actor", "Entity", "Team")]
+        for (P1, f1, w1) in poss:
+            for (P2, f2, w2) in poss:
+                if P1 == P2:
+                    continue
+                k += 1
+                b1 = f1 + " " + w1.format("{ ...FR }").replace("{{", "{").replace("}}", "}")
+                b2 = "second: " + f2 + " " + w2.format("{ ...FR }").replace("{{", "{").replace("}}", "}")
+                add(f"M{k}", "{ " + b1 + " " + b2 + " }", [f"fragment FR on {F} {{ {K2_OWN[F]} }}"], {f"frag:{F}", "shape:one_fragment_two_positions", f"m1:{P1}+{P2}>{F}"})
     # two operations sharing one fragment; the operation generated second is the one evaluated
     shared = [("FS", F, f"fragment FS on {F} {{ {K2_OWN[F]} }}") for F in K2_OWN] + \
              [("FSI", F, f"fragment FSI on {F} {{ {K2_OWN[F]} ... on Robot {{ model }} }}") for F in ("Entity", "Actor", "Member", "Thing")]
